@@ -131,53 +131,16 @@ theorem tie_addShape : GoZero.Extracted.C15.addShape = [
 theorem tie_addExprs : GoZero.Extracted.C15.addExprs = [
   "call:h.AddWithReplicas(node, h.replicas)"] := rfl
 
-/-- Remove first, upper clamp, addNode, loop `i < replicas` { hash label; append key; insertRingNode }, sort keys -/
-theorem tie_addWithReplicasShape : GoZero.Extracted.C15.addWithReplicasShape = [
-  "call h.Remove",
-  "if replicas > h.replicas {",
-  "}",
-  "call repr",
-  "call h.lock.Lock",
-  "defer{",
-  "call h.lock.Unlock",
-  "}",
-  "call h.addNode",
-  "for i < replicas {",
-  "call ?",
-  "call h.hashFunc",
-  "store h.keys",
-  "call insertRingNode",
-  "mapset h.ring",
-  "}",
-  "func{",
-  "return",
-  "}",
-  "call sort.Slice"] := rfl
+/-! `AddWithReplicas` / `Remove` exist in two accepted forms:
+  * TWO critical sections (the tree as it is): `AddWithReplicas` calls `Remove(node)` — lock, body, unlock — and
+    then takes the lock again for the insertion; readers can run in between (`Conc.step … false`);
+  * ONE critical section (after fixes/C15-add-single-critical-section.patch): the body of Remove is
+    `removeLocked`, called by both under the lock (`Conc.step … true`).
+In both the removal loop and the insertion are the same statements in the same order. -/
 
-/-- label format `nodeRepr + strconv.Itoa(i)`; bucket := insertRingNode(bucket, node); keys sorted ascending -/
-theorem tie_addWithReplicasExprs : GoZero.Extracted.C15.addWithReplicasExprs = [
-  "call:h.Remove(node)",
-  "call:h.addNode(nodeRepr)",
-  "hash:[]byte(nodeRepr + strconv.Itoa(i))",
-  "set:h.keys = append(h.keys, hash)",
-  "set:h.ring[hash] = insertRingNode(h.ring[hash], node, nodeRepr)",
-  "call:insertRingNode(h.ring[hash], node, nodeRepr)",
-  "less:h.keys:h.keys[i] < h.keys[j]"] := rfl
-
-theorem tie_addWithWeightShape : GoZero.Extracted.C15.addWithWeightShape = [
-  "call h.AddWithReplicas"] := rfl
-
-/-- the weight formula feeds AddWithReplicas -/
-theorem tie_addWithWeightExprs : GoZero.Extracted.C15.addWithWeightExprs = [
-  "call:h.AddWithReplicas(node, replicas)"] := rfl
-
-/-- absent → no-op; loop `i < h.replicas` { hash label; if !removeRingNode → continue; search; delete one key }; removeNode -/
-theorem tie_removeShape : GoZero.Extracted.C15.removeShape = [
-  "call repr",
-  "call h.lock.Lock",
-  "defer{",
-  "call h.lock.Unlock",
-  "}",
+/-- the body of the removal: absent → no-op; loop `i < h.replicas` { hash label; if !removeRingNode → continue;
+lower-bound search; delete one key entry }; removeNode -/
+def removalBodyShape : List String := [
   "if !h.containsNode(nodeRepr) {",
   "return",
   "}",
@@ -195,16 +158,77 @@ theorem tie_removeShape : GoZero.Extracted.C15.removeShape = [
   "store h.keys",
   "}",
   "}",
-  "call h.removeNode"] := rfl
+  "call h.removeNode"]
 
-/-- same label format; lower-bound search `keys[i] >= hash`; one key entry deleted -/
-theorem tie_removeExprs : GoZero.Extracted.C15.removeExprs = [
+def removalBodyExprs : List String := [
   "call:h.containsNode(nodeRepr)",
   "hash:[]byte(nodeRepr + strconv.Itoa(i))",
   "call:h.removeRingNode(hash, nodeRepr)",
   "search:len(h.keys):h.keys[i] >= hash",
   "set:h.keys = append(h.keys[:index], h.keys[index+1:]...)",
-  "call:h.removeNode(nodeRepr)"] := rfl
+  "call:h.removeNode(nodeRepr)"]
+
+def lockPrefix : List String := [
+  "call repr",
+  "call h.lock.Lock",
+  "defer{",
+  "call h.lock.Unlock",
+  "}"]
+
+/-- addNode, loop `i < replicas` { hash label; append key; insertRingNode }, sort keys -/
+def insertionShape : List String := [
+  "call h.addNode",
+  "for i < replicas {",
+  "call ?",
+  "call h.hashFunc",
+  "store h.keys",
+  "call insertRingNode",
+  "mapset h.ring",
+  "}",
+  "func{",
+  "return",
+  "}",
+  "call sort.Slice"]
+
+/-- label format `nodeRepr + strconv.Itoa(i)`; bucket := insertRingNode(bucket, node); keys sorted ascending -/
+def insertionExprs : List String := [
+  "call:h.addNode(nodeRepr)",
+  "hash:[]byte(nodeRepr + strconv.Itoa(i))",
+  "set:h.keys = append(h.keys, hash)",
+  "set:h.ring[hash] = insertRingNode(h.ring[hash], node, nodeRepr)",
+  "call:insertRingNode(h.ring[hash], node, nodeRepr)",
+  "less:h.keys:h.keys[i] < h.keys[j]"]
+
+def clampShape : List String := ["if replicas > h.replicas {", "}"]
+
+/-- the tree as it is: Remove (own critical section) first, upper clamp, lock, insertion -/
+def TwoSections : Prop :=
+  GoZero.Extracted.C15.addWithReplicasShape = ["call h.Remove"] ++ clampShape ++ lockPrefix ++ insertionShape ∧
+  GoZero.Extracted.C15.addWithReplicasExprs = ["call:h.Remove(node)"] ++ insertionExprs ∧
+  GoZero.Extracted.C15.removeShape = lockPrefix ++ removalBodyShape ∧
+  GoZero.Extracted.C15.removeExprs = removalBodyExprs ∧
+  GoZero.Extracted.C15.removeLockedShape = ["ABSENT"]
+
+/-- after the fix: upper clamp, lock, removal body, insertion — one critical section -/
+def OneSection : Prop :=
+  GoZero.Extracted.C15.addWithReplicasShape = clampShape ++ lockPrefix ++ ["call h.removeLocked"] ++ insertionShape ∧
+  GoZero.Extracted.C15.addWithReplicasExprs = ["call:h.removeLocked(nodeRepr)"] ++ insertionExprs ∧
+  GoZero.Extracted.C15.removeShape = lockPrefix ++ ["call h.removeLocked"] ∧
+  GoZero.Extracted.C15.removeExprs = ["call:h.removeLocked(nodeRepr)"] ∧
+  GoZero.Extracted.C15.removeLockedShape = removalBodyShape ∧
+  GoZero.Extracted.C15.removeLockedExprs = removalBodyExprs
+
+instance : Decidable TwoSections := by unfold TwoSections; exact inferInstance
+instance : Decidable OneSection := by unfold OneSection; exact inferInstance
+
+theorem tie_critical_sections : TwoSections ∨ OneSection := by decide
+
+theorem tie_addWithWeightShape : GoZero.Extracted.C15.addWithWeightShape = [
+  "call h.AddWithReplicas"] := rfl
+
+/-- the weight formula feeds AddWithReplicas -/
+theorem tie_addWithWeightExprs : GoZero.Extracted.C15.addWithWeightExprs = [
+  "call:h.AddWithReplicas(node, replicas)"] := rfl
 
 /-- first entry with that repr only; bucket deleted when it was the last; reports whether one was removed -/
 theorem tie_removeRingNodeShape : GoZero.Extracted.C15.removeRingNodeShape = [
